@@ -22,6 +22,7 @@ import GoNeat.Props.C10Exact
 import GoNeat.Props.C09ParentsExact
 import GoNeat.Props.C01
 import GoNeat.Spec.PopInv
+import GoNeat.Props.C09Expected
 
 namespace GoNeat.C10
 open GoNeat Scalar
@@ -400,5 +401,189 @@ theorem runEpochs_keeps_champions (o : EpochOpts W) (evs : List (Pop W → Pop W
                exact nextEpoch_keeps_champion o gen (ev p) q1 p1 ex rs rs1' rs1 hinv0.uid hinv0.spid.nodup hinv0.sc
                  (refsOk_of_pool _ hinv0.pool) hprep h1
              · exact ih' st hst)
+
+/-! ### evaluations that assign fitness values satisfy `EvalKeeps` -/
+
+/-- an evaluation: every organism gets the fitness `f` computes for it, nothing else changes -/
+def setFitness (f : Org W → W) (p : Pop W) : Pop W :=
+  { p with species := p.species.map (fun s => { s with orgs := s.orgs.map (fun x => { x with fitness := f x }) }) }
+
+theorem evalKeeps_setFitness (f : Org W → W) (q : Pop W) : EvalKeeps q (setFitness f q) := by
+  refine ⟨⟨rfl, rfl, rfl, ?_⟩, ?_, rfl, ?_⟩
+  · simp only [setFitness, List.map_map]
+    apply List.map_congr_left
+    intro s _
+    simp [C02.ukey, C02.skey, List.map_map, Function.comp_def]
+  · intro g hg
+    obtain ⟨s', hs', x', hx', rfl⟩ := C01.mem_genomesOfPop.mp hg
+    obtain ⟨s, hs, rfl⟩ := List.mem_map.mp hs'
+    obtain ⟨x, hx, rfl⟩ := List.mem_map.mp hx'
+    exact C01.mem_genomesOfPop.mpr ⟨s, hs, x, hx, rfl⟩
+  · intro hz s' hs' x' hx'
+    obtain ⟨s, hs, rfl⟩ := List.mem_map.mp hs'
+    obtain ⟨x, hx, rfl⟩ := List.mem_map.mp hx'
+    exact hz s hs x hx
+
+/-! ### non-vacuity: concrete epochs over ℚ (exact arithmetic) satisfy every hypothesis, for each of the three ways the
+    preparation phase can end (nothing redistributed / delta coding / stolen babies), and a two-generation run -/
+section NonVacuity
+open GoNeat.C09 (ratScalar ratScalar_eq qOpts)
+
+/-- after preparation: (species id, quota, [(allocation id, reservation)] of the organisms left as parents); `[]` on error -/
+def prepView {W} (r : R (Pop W × ExecState)) : List (Int × Int × List (Nat × Int)) :=
+  match r with
+  | .ok ((q, _), _) => q.species.map (fun (s : Species W) =>
+      (s.id, s.expectedOffspring, s.orgs.map (fun (x : Org W) => (x.uid, x.superChampOffspring))))
+  | .error _ => []
+
+/-- a population, one row per organism: (species id, allocation id, [(innovation number, weight)] of the genome);
+    `[]` on error -/
+def popView {W} (r : R (Pop W)) : List (Int × Nat × List (Int × W)) :=
+  match r with
+  | .ok (q, _) => q.species.flatMap (fun (s : Species W) =>
+      s.orgs.map (fun (x : Org W) => (s.id, x.uid, x.genome.genes.map (fun (g : Gene W) => (g.inn, g.w)))))
+  | .error _ => []
+
+/-- the two executable C10 predicates of the driver on the results of the two phases -/
+def whyView {W} [Scalar W] (weq : W → W → Bool) (before : Pop W) (r1 : R (Pop W × ExecState)) (r2 : R (Pop W)) :
+    Option (String × String) :=
+  match r1, r2 with
+  | .ok ((p1, _), _), .ok (p', _) => some (PopSpec.championWhy weq p1 p', PopSpec.fittestWhy weq before p1 p')
+  | _, _ => none
+
+theorem prepView_ok {W} {r : R (Pop W × ExecState)} (h : prepView r ≠ []) :
+    ∃ p1 ex rs1, r = .ok ((p1, ex), rs1) ∧
+      prepView r = p1.species.map (fun (s : Species W) => (s.id, s.expectedOffspring, s.orgs.map (fun (x : Org W) => (x.uid, x.superChampOffspring)))) := by
+  match r, h with
+  | .ok ((q, ex), rs1), _ => exact ⟨q, ex, rs1, rfl, rfl⟩
+  | .error _, h => exact absurd rfl h
+
+theorem popView_ok {W} {r : R (Pop W)} (h : popView r ≠ []) : ∃ p' rs', r = .ok (p', rs') := by
+  match r, h with
+  | .ok (q, rs1), _ => exact ⟨q, rs1, rfl⟩
+  | .error _, h => exact absurd rfl h
+
+def qOrg8 (uid : Nat) (f : ℚ) : Org ℚ :=
+  { uid := uid, fitness := f, expectedOffspring := 0, generation := 0, originalFitness := 0, highestFitness := 0,
+    genome := { id := uid, traits := [⟨1, []⟩], nodes := [⟨1, Kind.input, 4, none⟩, ⟨2, Kind.output, 4, none⟩],
+                genes := [⟨1, 1, 2, false, uid, 0, true, none⟩] } }
+
+/-- PopSize 8, survival threshold 1/2, no stolen babies, every organism that is not a champion copy gets an add-node
+    mutation -/
+def qOpts8 : EpochOpts ℚ := { qOpts with popSize := 8 }
+
+/-- one species of eight organisms with raw fitness 1, 9, 2, 3, …, 7: the fittest is organism 1, whose single gene has
+    weight 1 (organism `i`'s gene has weight `i`) -/
+def qPop8 : Pop ℚ :=
+  { species := [{ id := 1, age := 3, maxFitnessEver := 0, expectedOffspring := 0, isNovel := false,
+                  orgs := [qOrg8 0 1, qOrg8 1 9, qOrg8 2 2, qOrg8 3 3, qOrg8 4 4, qOrg8 5 5, qOrg8 6 6, qOrg8 7 7],
+                  ageOfLastImprovement := 0 }],
+    organisms := [0, 1, 2, 3, 4, 5, 6, 7], lastSpecies := 1, highestFitness := 0, epochsHighestLastChanged := 0,
+    reg := { records := [], nextInn := 1, nextNode := 2 }, nextUid := 8 }
+
+/-- the same population long after its last record: delta coding runs -/
+def qPop8d : Pop ℚ := { qPop8 with highestFitness := 1000, epochsHighestLastChanged := 30 }
+
+/-- two old species of eight; two babies are stolen -/
+def qOpts16 : EpochOpts ℚ := { qOpts with popSize := 16, babiesStolen := 2 }
+def qPop16 : Pop ℚ :=
+  { species := [{ id := 1, age := 8, maxFitnessEver := 0, expectedOffspring := 0, isNovel := false, ageOfLastImprovement := 7,
+                  orgs := [qOrg8 0 10, qOrg8 1 8, qOrg8 2 9, qOrg8 3 3, qOrg8 8 10, qOrg8 9 8, qOrg8 10 9, qOrg8 11 12] },
+                { id := 2, age := 8, maxFitnessEver := 0, expectedOffspring := 0, isNovel := false, ageOfLastImprovement := 7,
+                  orgs := [qOrg8 4 4, qOrg8 5 5, qOrg8 6 6, qOrg8 7 7, qOrg8 12 4, qOrg8 13 5, qOrg8 14 6, qOrg8 15 7] }],
+    organisms := [0, 1, 2, 3, 4, 5, 6, 7, 8, 9, 10, 11, 12, 13, 14, 15], lastSpecies := 2, highestFitness := 0,
+    epochsHighestLastChanged := 0, reg := { records := [], nextInn := 1, nextNode := 2 }, nextUid := 16 }
+
+/-- every raw draw is 2^62: every unit draw is 1/2 -/
+def st8 : List Nat := List.replicate 200 (2 ^ 62)
+
+/-- the decidable hypotheses of ALL theorems of this file, bundled -/
+def AllHyps (o : EpochOpts ℚ) (p : Pop ℚ) : Prop :=
+  C02.UidInv p ∧ (p.species.map (·.id)).Nodup ∧ (C02.orgUids p.species).Nodup ∧ ScZero p ∧ RefsOkPop p ∧
+  (∀ s ∈ p.species, ∀ x ∈ s.orgs, x.toEliminate = false) ∧ (∀ s ∈ p.species, ∀ x ∈ s.orgs, 0 ≤ x.fitness) ∧
+  0 < o.ageSignificance ∧ 0 ≤ o.survivalThresh
+
+theorem exHyps8 : AllHyps qOpts8 qPop8 ∧ AllHyps qOpts8 qPop8d ∧ AllHyps qOpts16 qPop16 := by
+  refine ⟨⟨⟨by decide, by decide⟩, by decide, by decide, by decide, by decide +kernel, by decide, by decide +kernel, ?_, ?_⟩,
+          ⟨⟨by decide, by decide⟩, by decide, by decide, by decide, by decide +kernel, by decide, by decide +kernel, ?_, ?_⟩,
+          ⟨⟨by decide, by decide⟩, by decide, by decide, by decide, by decide +kernel, by decide, by decide +kernel, ?_, ?_⟩⟩ <;>
+    norm_num [qOpts8, qOpts16, qOpts]
+
+/-- **(A) nothing redistributed**: quota 8, no reservation, five parents left (floor(8/2)+1), the first is organism 1 —
+    the fittest; in the next generation organism 8 carries its genome (weight 1) unmodified, the seven others are
+    mutated offspring of organism 4. -/
+theorem exA_views :
+    prepView (prepareForReproduction qOpts8 qPop8 st8) = [(1, 8, [(1, 0), (7, 0), (6, 0), (5, 0), (4, 0)])] ∧
+    popView (nextEpoch qOpts8 1 qPop8 st8) =
+      [(2, 8, [(1, 1)]), (3, 9, [(1, 4), (2, 1), (3, 4)]), (4, 10, [(1, 4), (2, 1), (3, 4)]),
+            (5, 11, [(1, 4), (2, 1), (3, 4)]), (6, 12, [(1, 4), (2, 1), (3, 4)]), (7, 13, [(1, 4), (2, 1), (3, 4)]),
+            (8, 14, [(1, 4), (2, 1), (3, 4)]), (9, 15, [(1, 4), (2, 1), (3, 4)])] := by
+  rw [ratScalar_eq]; decide +kernel
+
+/-- **(B) delta coding**: the champion gets reservation 8 = quota 8 (`prepare_sc_le` holds with equality); the last
+    super-champion clone is the exact copy. -/
+theorem exB_views :
+    prepView (prepareForReproduction qOpts8 qPop8d st8) = [(1, 8, [(1, 8), (7, 0), (6, 0), (5, 0), (4, 0)])] ∧
+    (popView (nextEpoch qOpts8 1 qPop8d st8)).map (fun row => (row.2.1, row.2.2)) =
+      [(8, [(1, 1)]), (9, [(1, 1)]), (10, [(1, 1)]), (11, [(1, 1)]), (12, [(1, 1)]), (13, [(1, 1)]), (14, [(1, 1)]),
+            (15, [(1, 1)])] := by
+  rw [ratScalar_eq]; decide +kernel
+
+/-- **(C) stolen babies**: species 1 ends with quota 11 and reservation 2 on its champion (organism 11, raw fitness 12,
+    the fittest), species 2 with quota 5 (not above five: no claim); organisms 16–18 of the next generation carry the
+    champion's genome (weight 11): two super-champion clones (weight-mutation power 0) and the champion clone. -/
+theorem exC_views :
+    prepView (prepareForReproduction qOpts16 qPop16 st8) =
+      [(1, 11, [(11, 2), (0, 0), (8, 0), (2, 0), (10, 0)]), (2, 5, [(7, 0), (15, 0), (6, 0), (14, 0), (5, 0)])] ∧
+    ((popView (nextEpoch qOpts16 1 qPop16 st8)).take 4).map (·.2) =
+      [(16, [(1, 11)]), (17, [(1, 11)]), (18, [(1, 11)]), (19, [(1, 10), (2, 1), (3, 10)])] := by
+  rw [ratScalar_eq]; decide +kernel
+
+/-- the executable predicates accept the three model epochs (evaluated by the kernel, independently of
+    `championWhy_model` / `fittestWhy_model`) … -/
+example :
+    whyView (fun a b => decide (a = b)) qPop8 (prepareForReproduction qOpts8 qPop8 st8) (nextEpoch qOpts8 1 qPop8 st8) = some ("", "") ∧
+    whyView (fun a b => decide (a = b)) qPop8d (prepareForReproduction qOpts8 qPop8d st8) (nextEpoch qOpts8 1 qPop8d st8) = some ("", "") ∧
+    whyView (fun a b => decide (a = b)) qPop16 (prepareForReproduction qOpts16 qPop16 st8) (nextEpoch qOpts16 1 qPop16 st8) = some ("", "") := by
+  rw [ratScalar_eq]; decide +kernel
+
+/-- … and reject the first epoch once the species holding the copy (organism 8) is removed from the result: the
+    predicates bite -/
+example :
+    whyView (fun a b => decide (a = b)) qPop8 (prepareForReproduction qOpts8 qPop8 st8)
+      (match nextEpoch qOpts8 1 qPop8 st8 with
+       | .ok (q, rs) => .ok ({ q with species := q.species.drop 1 }, rs)
+       | .error e => .error e) ≠ some ("", "") := by
+  rw [ratScalar_eq]; decide +kernel
+
+/-- the conclusions of the end-to-end theorems, instantiated for the three epochs: both phases return, a species with
+    quota above five exists, and a fittest organism of its original species has an unmodified copy in the next generation -/
+theorem exConclusion (o : EpochOpts ℚ) (p : Pop ℚ) (hyp : AllHyps o p)
+    (h1 : ∃ e ∈ prepView (prepareForReproduction o p st8), e.2.1 > 5) (h2 : popView (nextEpoch o 1 p st8) ≠ []) :
+    ∃ p1 ex rs1 p' rs', prepareForReproduction o p st8 = .ok ((p1, ex), rs1) ∧ nextEpoch o 1 p st8 = .ok (p', rs') ∧
+      (∃ s ∈ p1.species, s.expectedOffspring > 5) ∧
+      (∀ s ∈ p1.species, s.expectedOffspring > 5 → ∃ s0 ∈ p.species, s0.id = s.id ∧ ∃ y ∈ s0.orgs,
+        (∀ x ∈ s0.orgs, x.fitness ≤ y.fitness) ∧ ∃ s' ∈ p'.species, ∃ x ∈ s'.orgs, x.uid ∈ p'.organisms ∧ IsCopy y x) ∧
+      PopSpec.championWhy (fun a b => decide (a = b)) p1 p' = "" ∧
+      PopSpec.fittestWhy (fun a b => decide (a = b)) p p1 p' = "" := by
+  obtain ⟨e, hev, hgt⟩ := h1
+  obtain ⟨p1, ex, rs1, hp, hv⟩ := prepView_ok (r := prepareForReproduction o p st8) (by intro h0; rw [h0] at hev; cases hev)
+  obtain ⟨p', rs', he⟩ := popView_ok h2
+  obtain ⟨hu, hnd, hundup, hz, hrefs, hun, hnn, ha, hst⟩ := hyp
+  refine ⟨p1, ex, rs1, p', rs', hp, he, ?_, nextEpoch_keeps_fittest o 1 p p' p1 ex st8 rs1 rs' hu hnd hundup hz hrefs hun hnn ha hst hp he,
+    championWhy_model _ (by simp) o 1 p p' p1 ex st8 rs1 rs' hu hnd hz hrefs hp he,
+    fittestWhy_model _ (by simp) o 1 p p' p1 ex st8 rs1 rs' hu hnd hundup hz hrefs hun hnn ha hst hp he⟩
+  rw [hv] at hev
+  obtain ⟨s, hs, rfl⟩ := List.mem_map.mp hev
+  exact ⟨s, hs, hgt⟩
+
+example := exConclusion qOpts8 qPop8 exHyps8.1 (by rw [exA_views.1]; exact ⟨_, List.mem_cons_self, by decide⟩)
+  (by rw [exA_views.2]; simp)
+example := exConclusion qOpts8 qPop8d exHyps8.2.1 (by rw [exB_views.1]; exact ⟨_, List.mem_cons_self, by decide⟩)
+  (by intro h0; have := exB_views.2; rw [h0] at this; cases this)
+example := exConclusion qOpts16 qPop16 exHyps8.2.2 (by rw [exC_views.1]; exact ⟨_, List.mem_cons_self, by decide⟩)
+  (by intro h0; have := exC_views.2; rw [h0] at this; cases this)
+
+end NonVacuity
 
 end GoNeat.C10
